@@ -11,7 +11,7 @@ for id in "${IDS[@]}"; do
   git -C /repo apply "/verif/$d/patch.diff" || { echo "$id: patch does not apply"; continue; }
   out="$(./check "$prop" quick 2>/dev/null)"; rc=$?
   git -C /repo checkout -- .
-  first="$(echo "$out" | grep -m1 -A1 VIOLATION | tail -1 | cut -c1-300)"
+  first="$(echo "$out" | grep -m1 -A1 VIOLATION | tail -1 | python3 -c "import sys; print(sys.stdin.read()[:300].strip())")"
   python3 - "$d/meta.json" "$prop" "$rc" "$first" <<'PY'
 import json, sys
 f, prop, rc, first = sys.argv[1], sys.argv[2], int(sys.argv[3]), sys.argv[4]
